@@ -879,6 +879,9 @@ package dbft
 // C12: a requested transaction is taken (unless taking it moved the node to another view)
 //@   ensures [C12] @accepts implies(old(self.MyIndex >= 0 && !self.Config.WatchOnly() && self.MyIndex != self.PrimaryIndex && rsor() && !askedToLeave() && !locked() && gPrep == nil && !self.blockProcessed
 //@        && exists(k, 0, len(self.MissingTransactions), self.MissingTransactions[k] == tx.Hash())), self.ViewNumber > old(self.ViewNumber) || has(self.Transactions, tx.Hash()))
+// when taking the transaction moved the node on to another view (and possibly a new proposal), what that proposal still
+// waits for is left alone: only the supplied transaction leaves the list, and it left the OLD proposal's list
+//@   ensures [C12] @onlySuppliedLeaves implies(self.ViewNumber != old(self.ViewNumber), sametable(self.MissingTransactions, aftercall(addTransaction, self.MissingTransactions)))
 //@   ensures [C11,C04,C02] @notRequested implies(forall(j, 0, old(len(self.MissingTransactions)), old(self.MissingTransactions[j]) != tx.Hash()), ignored())
 //@   ensures [C12] @answers implies(!old(has(self.Transactions, tx.Hash())) && has(self.Transactions, tx.Hash()) && self.ViewNumber == old(self.ViewNumber) && hasAllTx() && notWatchOnly() && !old(self.blockProcessed),
 //@        gBroadcasts > old(gBroadcasts))
